@@ -152,9 +152,17 @@ def record_diff(a, b, opts, views=True, timeout=8.0):
                 # an object that occurs twice in a table (multiset duplicates) cannot carry per-occurrence marks
                 ann = all(len(v) == 1 for v in ft.by_identity.values()) and \
                     all(len(v) == 1 for v in tt.by_identity.values())
+                # a comparison that STARTS from the annotated tree of this one (a chained / three-way diff): the annotated
+                # tree stands for the first document, so the cost it reports for (itself -> second document) is the same total
+                try:
+                    chained = int(ret.diff(b).edited_cost())
+                except Expired:
+                    raise
+                except Exception:
+                    chained = -1
                 ev.append({"e": "views", "top": top, "edited": edited, "flat": int(flat), "hadEdits": bool(had),
                            "ann": ann, "annRemoved": sorted(set(ann_removed)),
-                           "annInserted": sorted(set(ann_inserted))})
+                           "annInserted": sorted(set(ann_inserted)), "chained": chained})
             else:
                 ev.append({"e": "whole"})
     except Expired:
